@@ -5,6 +5,7 @@ import (
 	"fmt"
 	"strconv"
 
+	"github.com/cube2222/octosql/execution"
 	"github.com/cube2222/octosql/octosql"
 )
 
@@ -20,6 +21,7 @@ func genC09(g *Gen, tier string, w *bufio.Writer) {
 		for _, b := range u {
 			fmt.Fprintf(w, "cmp %s %s\n", EncodeValue(a), EncodeValue(b))
 			fmt.Fprintf(w, "equal %s %s\n", EncodeValue(a), EncodeValue(b))
+			fmt.Fprintf(w, "less 1 %s %s\n", EncodeValue(a), EncodeValue(b))
 		}
 	}
 	// triples of the universe: exhaustive on the thorough tier, sampled on quick
@@ -51,6 +53,10 @@ func genC09(g *Gen, tier string, w *bufio.Writer) {
 			c = Mutate(g, b)
 		}
 		fmt.Fprintf(w, "laws %s %s %s\n", EncodeValue(a), EncodeValue(b), EncodeValue(c))
+		if i%2 == 0 {
+			// rows sharing a prefix, so that the deciding position is a nested value
+			fmt.Fprintf(w, "less 2 %s %s %s %s\n", EncodeValue(c), EncodeValue(a), EncodeValue(c), EncodeValue(b))
+		}
 		if i%4 == 0 {
 			row := []octosql.Value{a, b, c}
 			fmt.Fprintf(w, "hashmany %d %s\n", len(row), EncodeValues(row))
@@ -78,6 +84,14 @@ func driveC09(toks []string) string {
 		k, _ := strconv.Atoi(toks[1])
 		vs, _ := ParseValues(k, toks[2:])
 		return strconv.FormatUint(octosql.HashManyValues(vs), 10)
+	case "less":
+		k, _ := strconv.Atoi(toks[1])
+		a, r := ParseValues(k, toks[2:])
+		b, _ := ParseValues(k, r)
+		if execution.CompareValueSlices(a, b) {
+			return "1"
+		}
+		return "0"
 	case "laws":
 		a, r := ParseValue(toks[1:])
 		b, r := ParseValue(r)
